@@ -6,21 +6,19 @@ P("C09",
   technique="Coq: executable whole-simulation model evaluated by vm_compute (exact trace tie with the real engine), concrete "
             "refutation witness, and an inductive invariant of a connection in an arbitrary environment, parametric in the tick guard",
   level_text="C09/Model.v is an executable model of a whole simulation: the serial engine's primary/secondary queues ((time, FIFO) "
-             "order, primary first), TickScheduler.TickNow/TickLater with the dedup guard as coded (GuardOld) or repaired (GuardNew), "
-             "the event-driven pendingWakeup guard, DirectConnection ticks (Lib/Conn.v) with TickLater on progress, ports (Lib/Port.v) "
-             "with all four callbacks routed as in the code, and scripted ticking / event-driven components (timer sends, relays, "
-             "drain limits). REFUTED on the current code: c09_refuted is a concrete topology (two connections bridged by an "
-             "event-driven relay) whose run ends with both queues empty and a deliverable message stranded; "
-             "c09_ticknow_old_loses_request isolates the cause in the guard. The same witness is replayed against the real code on "
-             "every run (KNOWN-FINDING F-C09-1). For the repaired guard: c09_request_leaves_tick_pending (scheduler invariant: every "
-             "TickNow/TickLater leaves a tick event pending), c09_inv_partial and c09_quiescent_clean_partial: for a connection in an "
-             "ARBITRARY environment (any sends/retrievals on its ports by any components, any timing, any capacities), a deliverable "
-             "outgoing head implies a pending tick, hence none exists at queue exhaustion (clause 1 of the statement, every topology). "
-             "These use C10's tick_progress (a tick leaves no deliverable head) and the port edge lemmas of C11. "
-             "c09_draining_component_clean (clause 2, code as it is): for a draining component in an arbitrary environment, unread "
-             "input implies a pending tick/wake-up event of that component, hence none at exhaustion. "
-             "PARTIAL: that every run of the executable scripted world projects onto runs of these two abstract systems is by shared "
-             "definitions, not by a theorem.",
+             "order, primary first), TickScheduler.TickNow/TickLater with the dedup guard as repaired in /repo (GuardNew, fix f717b29c) "
+             "or as it was (GuardOld), the event-driven pendingWakeup guard, DirectConnection ticks (Lib/Conn.v) with TickLater on "
+             "progress, ports (Lib/Port.v) with all four callbacks routed as in the code, and scripted ticking / event-driven "
+             "components (timer sends, relays, drain limits). c09_request_leaves_tick_pending (scheduler invariant: every "
+             "TickNow/TickLater leaves a tick event pending), c09_inv and c09_quiescent_clean: for a connection in an ARBITRARY "
+             "environment (any sends/retrievals on its ports by any components, any timing, any capacities), a deliverable outgoing "
+             "head implies a pending tick, hence none exists at queue exhaustion (clause 1, every topology); they use C10's "
+             "tick_progress and the port edge lemmas. c09_draining_component_clean (clause 2): for a draining component in an "
+             "arbitrary environment, unread input implies a pending tick/wake-up event of that component. Regression: c09_old_refuted "
+             "(the two-connection / event-driven-relay topology whose run under the old guard ended with both queues empty and a "
+             "deliverable message stranded), c09_ticknow_old_refuted, c09_witness_repaired_clean; the witness input stays in "
+             "corpus/C09 and in the directed set. PARTIAL: that every run of the executable scripted world projects onto runs of the "
+             "two abstract systems is by shared definitions, not by a theorem.",
   level_note="Trusted: Coq kernel + vm_compute; the Go harness (builds the topology with the real API, scripted Ticker / "
              "EventProcessor mirroring C09.Model.activate, engine BeforeEvent hook for the trace); the hand-written world model, tied "
              "by exact equality of the full (time, handler) trace and of every port's final state on 500 (quick) random topologies. "
@@ -30,9 +28,7 @@ P("C09",
                "every port has an owner and is plugged into exactly one direct connection; port names are distinct",
                "scripted components only: a component's activation = fire due timers, drain, flush (C09/Model.v activate); "
                "relays are cut after 3 hops so that relay cycles terminate",
-               "repaired guard = 'a TickNow at an instant whose tick event was already handled schedules NextTick(now)' "
-               "(needs the scheduler to remember the time of the last handled tick); it is NOT applied to /repo because it changes "
-               "modeling/ticker.go, which property C12's model mirrors line by line"],
+               "the guard datum (lastHandledTime, hasHandledTick) is part of the component checkpoint; checkpoint/restore itself is C06/C07"],
   quick_shards=8,
   trusted=["modelled, not verified: modeling/ticker.go (TickNow, TickLater, TickingComponent.Handle/NotifyRecv/NotifyPortFree), "
            "modeling/eventdriven.go (ScheduleWakeAt/Now, Handle, NotifyRecv/NotifyPortFree), timing/serialengine.go (Schedule, "
